@@ -86,6 +86,7 @@ type Event struct {
 	Requires []*Clause
 	Do       []*Clause
 	Blocking bool
+	Interference bool // other goroutines may run here: escaping memory is havocked
 	File     string
 	Line     int
 	Used     bool
@@ -540,7 +541,7 @@ func (cs *ContractSet) parseFile(file, pkgPath string) error {
 		case "event":
 			reset()
 			f := strings.Fields(rest)
-			if len(f) < 2 {
+			if len(f) < 1 {
 				return fmt.Errorf("%s:%d: bad event", l.file, l.line)
 			}
 			curEv = &Event{Kind: f[0], Key: strings.Join(f[1:], " "), PkgPath: pkgPath, File: l.file, Line: l.line}
@@ -673,6 +674,8 @@ func (cs *ContractSet) parseFile(file, pkgPath string) error {
 					}
 				case "blocking":
 					curEv.Blocking = true
+				case "interference":
+					curEv.Interference = true
 				default:
 					return fmt.Errorf("%s:%d: unknown event clause %q", l.file, l.line, word)
 				}
